@@ -60,7 +60,29 @@ type c05Store struct {
 	etagCounter bool
 	nver        int64
 	staleServed int64
+	retries     int64 // requests with attempt > 1: the SDK retried after a transport problem
+	foreign     int64 // requests that do not come from an AWS SDK client (someone else probing the port)
 	srv         *httptest.Server
+}
+
+// admit filters out traffic that is not the backend's (other programs on this machine
+// occasionally hit a recycled loopback port) and notes SDK retries. Caller holds mu.
+func (s *c05Store) admit(w http.ResponseWriter, r *http.Request) bool {
+	if !strings.HasPrefix(r.Header.Get("User-Agent"), "aws-sdk-go-v2/") {
+		s.foreign++
+		http.Error(w, "verification fake: not an AWS SDK request", http.StatusBadRequest)
+		return false
+	}
+	if !strings.HasPrefix(r.Header.Get("Amz-Sdk-Request"), "attempt=1;") {
+		s.retries++
+	}
+	return true
+}
+
+func (s *c05Store) disturbed() (retries, foreign int64) {
+	s.mu.Lock()
+	defer s.mu.Unlock()
+	return s.retries, s.foreign
 }
 
 func (s *c05Store) cell(key string) *c05Cell {
@@ -160,6 +182,9 @@ func (s *c05Store) serveDynamo(w http.ResponseWriter, r *http.Request) {
 	op := strings.TrimPrefix(target, "DynamoDB_20120810.")
 	s.mu.Lock()
 	defer s.mu.Unlock()
+	if !s.admit(w, r) {
+		return
+	}
 	rq := c05Req{Op: op, Status: 200}
 	defer func() { s.reqs = append(s.reqs, rq) }()
 	const validation = "com.amazon.coral.validate#ValidationException"
@@ -308,6 +333,9 @@ func (s *c05Store) serveS3(w http.ResponseWriter, r *http.Request) {
 	bucket, key, _ := strings.Cut(path, "/")
 	s.mu.Lock()
 	defer s.mu.Unlock()
+	if !s.admit(w, r) {
+		return
+	}
 	rq := c05Req{Op: "other", Key: path, Status: 200}
 	defer func() { s.reqs = append(s.reqs, rq) }()
 	if bucket == "" || key == "" {
